@@ -474,3 +474,31 @@ def rule_line_count(ctx, rep, config="c-lib"):
         else:
             rep.ok("C11-ln", key, sample={"increment": s_.where(), "read_through": "a local cursor committed on every path"})
     rep.floor("C11-ln", "increments of the line counter", n, 2)
+
+
+def rule_keyword(ctx, rep, config="c-lib"):
+    rep.rule("C11-keyword", "the scanner recognises the keyword TERM by comparing the whole identifier: the comparison with the literal `TERM' is strcmp, or a "
+                            "length-limited comparison whose length covers the terminating NUL (an identifier that merely starts with TERM is an identifier)")
+    p = ctx.prog(config)
+    f = p.fn("yaep_yylex")
+    rep.cover(p, [f.name])
+    n = 0
+    for c in f.calls():
+        lits = [(k, p.m.string_of(a)) for k, a in enumerate(c.args)]
+        lits = [(k, s_) for (k, s_) in lits if s_ == "TERM"]
+        if not lits:
+            continue
+        n += 1
+        key = "yylex/keyword-compare#%d" % n
+        g = p.m.functions.get(c.callee or "")
+        nm = c.callee or "indirect"
+        if nm == "strcmp":
+            rep.ok("C11-keyword", key, sample={"compare": c.where()})
+        elif nm in ("strncmp", "memcmp") and const_int(c.args[2]) is not None and const_int(c.args[2]) >= 5:
+            rep.ok("C11-keyword", key, sample={"compare": c.where(), "length": const_int(c.args[2])})
+        else:
+            rep.violation("C11-keyword", key, "the identifier is compared with the keyword TERM by %s%s: every identifier that starts with TERM (TERMS, TERMINATOR, TERM_x) is "
+                          "taken for the keyword -- a rule for it is a syntax error, a declaration of it is silently dropped" % (
+                              nm, (" over %s characters" % const_int(c.args[2])) if len(c.args) > 2 and const_int(c.args[2]) is not None else ""),
+                          where=c.where(), witness=[c.where()])
+    rep.floor("C11-keyword", "comparisons with the keyword literal", n, 1)
